@@ -8,6 +8,8 @@ import (
 	"fmt"
 	"strings"
 
+	"github.com/gogo/protobuf/jsonpb"
+
 	tmbytes "github.com/tendermint/tendermint/libs/bytes"
 
 	sdk "github.com/cosmos/cosmos-sdk/types"
@@ -243,6 +245,11 @@ func (state *RequestContextState) UnmarshalJSON(data []byte) error {
 	return nil
 }
 
+// UnmarshalJSONPB unmarshals raw JSON bytes into a RequestContextState when decoded by jsonpb
+func (state *RequestContextState) UnmarshalJSONPB(_ *jsonpb.Unmarshaler, data []byte) error {
+	return state.UnmarshalJSON(data)
+}
+
 // MarshalYAML returns the YAML representation
 func (state RequestContextState) MarshalYAML() (interface{}, error) {
 	return state.String(), nil
@@ -309,6 +316,11 @@ func (state *RequestContextBatchState) UnmarshalJSON(data []byte) error {
 
 	*state = bz
 	return nil
+}
+
+// UnmarshalJSONPB unmarshals raw JSON bytes into a RequestContextBatchState when decoded by jsonpb
+func (state *RequestContextBatchState) UnmarshalJSONPB(_ *jsonpb.Unmarshaler, data []byte) error {
+	return state.UnmarshalJSON(data)
 }
 
 // MarshalYAML returns the YAML representation
